@@ -18,30 +18,35 @@ Import ListNotations.
 Open Scope N_scope.
 
 (* relevant k s m : height m takes part in kind k's submission — every height for headers, the heights
-   whose block has transactions for data (createSignedDataToSubmit elides empty data). *)
+   whose block has transactions for data (createSignedDataToSubmit elides empty data).
+   resume init meta : the watermark a (re)started Manager begins with = the recorded one if there is one (not 0),
+   else initial height - 1 (block/manager.go:354-361, the repair of F8; in memory only). *)
 
 (* Safety.  At every moment of every history, for headers and for data:
-   1. the in-memory watermark equals the recorded one (so a restart resumes exactly from it);
+   1. the in-memory watermark is exactly the one a restart would resume from: the recorded one, or — while
+      nothing has been recorded yet — initial height - 1 (below which no block exists); equivalently
+      max(recorded, initial - 1).  (Before the repair this read "in-memory = recorded"; that is now false
+      between a boot with initial height > 1 and the first successful submission, by design of the repair.)
    2. it does not exceed the chain height;
-   3. every relevant height up to it has its blob accepted by the DA layer (it never moves past a height
-      whose blob the DA layer did not accept);
+   3. every committed relevant height up to it has its blob accepted by the DA layer (it never moves past a
+      height whose blob the DA layer did not accept);
    4. the DA layer holds blobs of committed heights only, and whenever it holds height x it holds every
-      relevant height below x (blobs reach the DA layer in height order, nothing is skipped);
-   5. every submit call ever made was made with in-memory = recorded watermark, carries strictly increasing
-      heights of committed blocks, all above the watermark (nothing confirmed is re-submitted), and omits no
-      relevant height between the watermark and any height it carries (never skips; starts right above the
-      watermark). *)
+      committed relevant height below x (blobs reach the DA layer in height order, nothing is skipped);
+   5. every submit call ever made was made with the watermark a restart would resume from, carries strictly
+      increasing heights of committed blocks, all above the watermark (nothing confirmed is re-submitted), and
+      omits no relevant height between the watermark and any height it carries (never skips; starts right
+      above the watermark). *)
 Theorem C06_watermark_sound_full : forall (c : cfg) (init : N) (hist : list item) (k : kind),
   1 <= init ->
   let s := run c init hist in
   let sd := get_side k s in
-  vol sd = meta0 (meta sd) /\
+  vol sd = resume (s_init s) (meta sd) /\ vol sd = N.max (meta0 (meta sd)) (s_init s - 1) /\
   vol sd <= height s /\
-  (forall m, 1 <= m <= vol sd -> relevant k s m -> In m (acc sd)) /\
+  (forall m, s_init s <= m <= vol sd -> relevant k s m -> In m (acc sd)) /\
   (forall x, In x (acc sd) -> s_init s <= x <= height s /\ relevant k s x /\
-             forall m, 1 <= m < x -> relevant k s m -> In m (acc sd)) /\
+             forall m, s_init s <= m < x -> relevant k s m -> In m (acc sd)) /\
   (forall cl, In cl (calls sd) ->
-     c_vol cl = meta0 (c_meta cl) /\ StronglySorted N.lt (c_hs cl) /\
+     c_vol cl = resume (s_init s) (c_meta cl) /\ StronglySorted N.lt (c_hs cl) /\
      forall x, In x (c_hs cl) ->
        c_vol cl < x <= height s /\ s_init s <= x /\ relevant k s x /\
        forall m, c_vol cl < m < x -> relevant k s m -> In m (c_hs cl)).
@@ -56,34 +61,21 @@ Theorem C06_watermark_monotone_full : forall (c : cfg) (init : N) (h1 h2 : list 
 Proof. exact watermark_monotone. Qed.
 Print Assumptions C06_watermark_monotone_full.
 
-(* Liveness, guard: initial height = 1.  From every reachable state, one iteration against a DA layer that
-   fails fewer than maxSubmitAttempts times (any failure kinds, accepted-but-acknowledgement-lost included)
-   and then accepts the request leaves every committed relevant block on the DA layer and the header
-   watermark at the chain height.  (30 or more failures: the iteration returns its error, the state still
-   satisfies C06_watermark_sound_full, and the statement applies to the next iteration.)
-   What is missing for _full: initial heights above 1 — see the two _refuted theorems. *)
-Theorem C06_eventually_partial : forall (c : cfg) (hist : list item) (k : N) (fails sc : list outcome) (kd : kind),
+(* Liveness, for ALL initial heights >= 1 (true since the repair of F8).  From every reachable state, one
+   iteration against a DA layer that fails fewer than maxSubmitAttempts times (any failure kinds, accepted-but-
+   acknowledgement-lost included) and then accepts the request leaves every committed relevant block on the DA
+   layer and the header watermark at the chain height.  (30 or more failures: the iteration returns its error,
+   the state still satisfies C06_watermark_sound_full, and the statement applies to the next iteration.) *)
+Theorem C06_eventually_full : forall (c : cfg) (init : N) (hist : list item) (k : N) (fails sc : list outcome) (kd : kind),
+  1 <= init ->
   forallb nonprogress fails = true -> (length fails < max_attempts)%nat ->
-  let s := run c 1 hist in
+  let s := run c init hist in
   height s <= k ->
   let s' := fst (step c s (ITick kd (fails ++ OAccept k :: sc))) in
   (forall m, s_init s <= m <= height s -> relevant kd s m -> In m (acc (get_side kd s'))) /\
   (kd = KHeader -> vol (s_h s') = height s).
-Proof. exact eventually_init1. Qed.
-Print Assumptions C06_eventually_partial.
-
-(* The same statement for all initial heights >= 1 is false of the code as it is (F8). *)
-Theorem C06_eventually_refuted : ~ (forall c init, 1 <= init -> eventually_stmt c init).
-Proof. exact eventually_full_false. Qed.
-Print Assumptions C06_eventually_refuted.
-
-(* Indeed for EVERY initial height above 1 and every history: no submit call is ever made, nothing reaches
-   the DA layer, both watermarks stay 0 (getPending asks the store for heights 1.. which do not exist). *)
-Theorem C06_initial_above_1_never_submits_refuted : forall (c : cfg) (init : N) (hist : list item),
-  1 < init ->
-  (s_h (run c init hist) = empty_side /\ s_d (run c init hist) = empty_side) /\ ~ eventually_stmt c init.
-Proof. exact (fun c init hist H => conj (never_submits c init hist H) (eventually_gt1_false c init H)). Qed.
-Print Assumptions C06_initial_above_1_never_submits_refuted.
+Proof. exact (fun c init hist k fails sc kd H1 => eventually_all c init H1 hist k fails sc kd). Qed.
+Print Assumptions C06_eventually_full.
 
 (* ---- non-vacuity ------------------------------------------------------------------------------------ *)
 Definition cf := {| c_bt := 1000; c_ttl := 2 |}.
@@ -109,7 +101,7 @@ Example ex_state :
   map c_hs (rev (calls (s_d s))) = [[2;3;5]; [2;3;5]; [3;5]; [3;5;6]].
 Proof. vm_compute. repeat split; try reflexivity; try discriminate. Qed.
 
-(* the hypotheses of C06_eventually_partial are met: 29 failures then acceptance, from a reachable state *)
+(* the hypotheses of C06_eventually_full are met: 29 failures then acceptance, from a reachable state *)
 Example ex_eventually :
   let s := run cf 1 (firstn 8 ex_hist) in
   let fails := repeat (OFail FDeadline) 14 ++ repeat (OAckLost 1 FNotIncluded) 15 in
@@ -125,12 +117,22 @@ Example ex_exhausted :
   vol (s_h (fst (step cf s (ITick KHeader (repeat (OFail FErr) 30 ++ [OAccept 1000]))))) = 0.
 Proof. vm_compute. repeat split; try reflexivity; try discriminate. Qed.
 
-(* the witness of the refutation, evaluated: initial height 2, one block, an accepting DA layer *)
-Example ex_refutation :
-  let s := run cf 2 [IPublish true] in
-  height s = 2 /\
-  snd (step cf s (ITick KHeader [OAccept 1000])) = (RGetErr, 0) /\
-  snd (step cf s (ITick KData [OAccept 1000])) = (RGetErr, 0) /\
-  s_h (run cf 2 [IPublish true; ITick KHeader [OAccept 1000]; ILoop KHeader [OAccept 1000]; IRestart;
-                 ITick KHeader [OAccept 1000]]) = empty_side.
+(* initial height 7: boot, restart before anything is recorded, submission, restart after *)
+Example ex_initial_7 :
+  let s0 := run cf 7 [IPublish false; IPublish true; IRestart] in
+  height s0 = 8 /\ vol (s_h s0) = 6 /\ meta (s_h s0) = None /\
+  let s1 := run cf 7 [IPublish false; IPublish true; IRestart; ITick KHeader [OAccept 1]; IRestart;
+                      ITick KHeader [OFail FErr; OAccept 1000]; ITick KData [OAccept 1000]; IRestart] in
+  vol (s_h s1) = 8 /\ meta (s_h s1) = Some 8 /\ rev (acc (s_h s1)) = [7; 8] /\
+  map c_hs (rev (calls (s_h s1))) = [[7; 8]; [8]; [8]] /\
+  vol (s_d s1) = 8 /\ rev (acc (s_d s1)) = [8].
 Proof. vm_compute. repeat split; try reflexivity; try discriminate. Qed.
+
+(* before the repair (F8): the watermark of a fresh Manager was 0 whatever the initial height; with initial
+   height 2 and one block getPending then asks for height 1, which does not exist, and fails — on every
+   iteration, so nothing was ever submitted.  With the repaired start value it returns the committed block. *)
+Example before_the_repair_getpending_fails :
+  pending_range 2 2 0 = None /\ pending_range 7 9 0 = None /\
+  pending_range 2 2 (resume 2 None) = Some [2] /\ pending_range 7 9 (resume 7 None) = Some [7; 8; 9] /\
+  resume 1 None = 0 /\ resume 7 (Some 8) = 8.
+Proof. vm_compute. repeat split; reflexivity. Qed.
